@@ -128,6 +128,7 @@ pub fn decode_update(b: &[u8], names: &Names) -> Result<Value, String> {
     let mut rems = serde_json::Map::new();
     let mut chg = serde_json::Map::new();
     let mut order: Vec<String> = Vec::new();
+    let mut rorder: Vec<String> = Vec::new();
     for flag in [1u8, 2, 4, 8] {
         if flags & flag == 0 {
             continue;
@@ -160,6 +161,7 @@ pub fn decode_update(b: &[u8], names: &Names) -> Result<Value, String> {
                         ks.push(comp_name(c.varint()? as usize));
                     }
                     ks.sort();
+                    rorder.push(e.clone());
                     if rems.insert(e.clone(), json!(ks)).is_some() {
                         return Err(format!("duplicate removal record for {e}"));
                     }
@@ -186,7 +188,7 @@ pub fn decode_update(b: &[u8], names: &Names) -> Result<Value, String> {
     if c.rem() != 0 {
         return Err("trailing bytes".into());
     }
-    Ok(json!({"tick": tick, "maps": maps, "desp": desp, "rems": rems, "chg": chg, "order": order, "len": b.len()}))
+    Ok(json!({"tick": tick, "maps": maps, "desp": desp, "rems": rems, "chg": chg, "order": order, "rorder": rorder, "len": b.len()}))
 }
 
 /// Decodes the entity section of a mutate message: `(ents, sizes, order)`.
